@@ -1,4 +1,7 @@
 """C10 — the compiler yields a valid Python AST or a user-facing error (never ValueError/TypeError/SystemError from compile())."""
+CANON = True
+STRICT = {"O0", "O1", "O2", "O3", "FUNNEL"}
+
 import ast
 
 from .. import astoblig, compq, idflow, pyq
@@ -331,15 +334,12 @@ def _o1(ctx, m, func, q, cls, fld, leaf, val):
         ctx.ok("O1", key, f"guarded ({g})")
         return
     txt = norm(leaf)
-    if txt in STATEMENT_FREE:
-        want = STATEMENT_FREE[txt]
-        tests = [norm(t) for pol, t in _enclosing_tests(leaf, func) if pol == "pos"]
-        if any(want in t for t in tests):
-            ctx.ok("O1", key, f"statement-free argument, arm guarded by `{want}`")
+    inner = leaf.value if isinstance(leaf, ast.Attribute) else None
+    if isinstance(inner, ast.Call) and compq.is_compile_call(inner):
+        why = compq.statement_free(inner, func)
+        if why:
+            ctx.ok("O1", key, f"statement-free sub-form: {why}")
             return
-        ctx.bad("O1", key, f"`{txt}` is used where the arm no longer guarantees a literal/symbol (expected guard `{want}`)", m.rel, leaf.lineno,
-                witness="a pattern whose sub-form compiles to statements")
-        return
     ctx.bad("O1", key, f"required field {cls}.{fld} receives `{txt}`, which is None when the sub-form compiles to statements only (or to nothing)",
             m.rel, leaf.lineno, witness="put `(do)` or `(setv x 1)` in the corresponding slot: compile() raises ValueError/TypeError instead of a Hy error")
 
@@ -486,9 +486,12 @@ def _funnel(ctx, src, comp):
               witness="a macro raising TypeError escapes as TypeError instead of HyMacroExpansionError", detail="inside with MacroExceptions")
     mx = mc.func("MacroExceptions.__exit__")
     ctx.require(mx is not None, "MacroExceptions.__exit__ not found")
-    conv = pyq.contains(mx, lambda n: isinstance(n, ast.If) and norm(n.test) == "not issubclass(exc_type, HyLanguageError)"
-                        and pyq.contains(n.body, lambda r: isinstance(r, ast.Raise) and "HyMacroExpansionError" in norm(r.exc or ast.Constant(value=0))) is not None)
-    ctx.check(conv is not None, "FUNNEL", f"{mc.rel}|MacroExceptions.__exit__|convert", "non-HyLanguageError exceptions are not converted to HyMacroExpansionError", mc.rel, mx.lineno,
+    rz = [r for r in ast.walk(mx) if isinstance(r, ast.Raise) and r.exc is not None and "HyMacroExpansionError" in norm(r.exc)]
+    conv = None
+    if len(rz) == 1:
+        gs = [str(g) for g in pyq.guard_texts(rz[0], mx)]
+        conv = True if gs == ["exc_type is not None", "not issubclass(exc_type, HyLanguageError)"] else False
+    ctx.decide("FUNNEL", f"{mc.rel}|MacroExceptions.__exit__|convert", conv, "non-HyLanguageError exceptions are not converted to HyMacroExpansionError", mc.rel, mx.lineno,
               detail="converted")
     # explicit raises in compile functions
     errs = src.py("hy/errors.py")
